@@ -186,6 +186,14 @@ def label_masks(rng, n, k=None):
 
 
 # ------------------------------------------------------------------------------ linear maps
+def flag(rng, p):
+    """A documented boolean option, spelled the way callers spell it: True/False, a numpy bool (the result of a
+    comparison), 1/0."""
+    v = bool(rng.random() < p)
+    k = int(rng.integers(0, 4))
+    return v if k < 2 else np.bool_(v) if k == 2 else int(v)
+
+
 def well_conditioned(rng, d, lo=0.4, hi=2.5):
     """d x d matrix with singular values in [lo, hi] (either orientation)."""
     u, _ = np.linalg.qr(rng.normal(size=(d, d)))
